@@ -55,13 +55,16 @@ def pairs(tbl):
     return lean_list(['(%s, %s.toList)' % (lean_char(k), lean_str(v)) for k, v in tbl])
 
 
-def shape_of(fn):
+def shape_of(fn, mask=()):
     """string constants (docstrings excluded), comparison operators and augmented assignments of
-    one function, in source order"""
+    one function, in source order; nodes in `mask` (the wrap comparison and its constant, which the
+    model reads as data) are rendered as WRAP"""
     items = []
     doc = ast.get_docstring(fn, clean=False)
     for node in ast.walk(fn):
-        if isinstance(node, ast.Constant) and isinstance(node.value, str) and node.value != doc:
+        if any(node is m for m in mask):
+            items.append((node.lineno, node.col_offset, ('cmp' if isinstance(node, ast.Compare) else 'i') + ':WRAP'))
+        elif isinstance(node, ast.Constant) and isinstance(node.value, str) and node.value != doc:
             items.append((node.lineno, node.col_offset, 's:' + node.value))
         elif isinstance(node, ast.Constant) and isinstance(node.value, (int,)) and not isinstance(node.value, bool):
             items.append((node.lineno, node.col_offset, 'i:%d' % node.value))
@@ -106,10 +109,15 @@ def main():
     tree = ast.parse(src)
     ca = func(tree, 'collect_attributes')
     wrap = None
+    mask = []
     for node in ast.walk(ca):
         if isinstance(node, ast.Compare) and isinstance(node.left, ast.Call) \
                 and getattr(node.left.func, 'id', '') == '_calc_attrs_length':
+            if len(node.ops) != 1 or not isinstance(node.comparators[0], ast.Constant) \
+                    or not isinstance(node.comparators[0].value, int) or node.comparators[0].value < 0:
+                raise SystemExit('gen_xmlwriter: wrap comparison is not `<call> <op> <non-negative int>`')
             wrap = (type(node.ops[0]).__name__, node.comparators[0].value)
+            mask = [node, node.comparators[0]]
     if wrap is None:
         raise SystemExit('gen_xmlwriter: wrap comparison not found in collect_attributes')
     init = func(tree, '__init__')
@@ -136,7 +144,7 @@ def main():
     for name in ['_calc_attrs_length', 'collect_attributes', 'build_xml_tag', '_open_tag', '_close_tag',
                  'write_line', 'write_comment', 'write_tag', 'push_tag', 'pop_tag', 'tagcontext']:
         shape.append('def:' + name)
-        shape.extend(shape_of(func(tree, name)))
+        shape.extend(shape_of(func(tree, name), mask))
 
     text = '''-- GENERATED by translators/gen_xmlwriter.py from giscanner/xmlwriter.py and the running CPython's
 -- xml.sax.saxutils. Do not edit.
